@@ -336,44 +336,41 @@ func corpus(st *Stats) {
 		st.Note("corpus", src+jsonStr(c), true)
 		if r.ok {
 			checkOutput(st, "transform", src, c, r)
+		} else {
+			failOnce(st, "corpus-input-rejected", map[string]interface{}{"kind": "transform", "source": src, "config": c, "scenario": "corpus"}, msgTexts(r.errors), "the corpus input is accepted")
 		}
 	}
-	c := &cfg{}
-	c.setTarget("es2015")
-	run("#!/usr/bin/env node\nx()", c)
-	c = &cfg{Supported: map[string]bool{"hashbang": false}}
-	c.setTarget("esnext")
-	run("#!/usr/bin/env node\nx()", c)
-	c = &cfg{}
-	c.setTarget("es2019")
-	run("x = import('./y.js')", c)
-	c = &cfg{}
-	c.setTarget("es2017")
-	run("x = /[\\p{L}]/u", c)
-	c = &cfg{Supported: map[string]bool{"regexp-set-notation": true}}
-	c.setTarget("es2017")
-	run("x = /\\p{L}/v", c)
+	mk := func(target string, sup map[string]bool) *cfg {
+		c := &cfg{Supported: sup}
+		c.setTarget(target)
+		return c
+	}
+	// (1) replays of the KNOWN findings (still reproduce; matched by known_findings.d/C14.json)
+	run("#!/usr/bin/env node\nx()", mk("es2015", nil))
+	run("#!/usr/bin/env node\nx()", mk("esnext", map[string]bool{"hashbang": false}))
+	run("x = import('./y.js')", mk("es2019", nil))
 	// contradictory overrides: the syntax forced on needs a feature that stays off
-	c = &cfg{Supported: map[string]bool{"for-await": true}}
-	c.setTarget("es2015")
-	run("async function f() { for await (const x of y) z(x) }\nf()", c)
-	c = &cfg{Supported: map[string]bool{"top-level-await": true}}
-	c.setTarget("es2015")
-	run("await x; export {}", c)
-	// found by the re-parse oracle (a lowering defect rather than a target leak)
-	c = &cfg{}
-	c.setTarget("es2021")
-	run("class C { static p = new.target }\nnew C", c)
-	c = &cfg{}
-	c.setTarget("es2017")
-	run("class C extends D { async *m() { yield super.x } }\nnew C", c)
-	c = &cfg{Supported: map[string]bool{"unicode-escapes": false}}
-	c.setTarget("esnext")
-	run("y = String.raw`\\u{1F600}${b}`", c)
+	run("async function f() { for await (const x of y) z(x) }\nf()", mk("es2015", map[string]bool{"for-await": true}))
+	run("await x; export {}", mk("es2015", map[string]bool{"top-level-await": true}))
 	// the refuted witness of lowering_closed: class-field lowering writes array spread
-	c = &cfg{Supported: map[string]bool{"class-field": false, "array-spread": false}}
-	c.setTarget("esnext")
-	run("class A extends B { x = 1 }\nnew A", c)
+	run("class A extends B { x = 1 }\nnew A", mk("esnext", map[string]bool{"class-field": false, "array-spread": false}))
+
+	// (2) MUST PASS: witnesses of findings that were repaired by fix: commits in /repo; a revert
+	// of the fix makes the detector / re-parse oracle fail on exactly these inputs
+	// fix 0b230bb: unicode property escapes inside a character class, and with the v flag
+	run("x = /[\\p{L}]/u", mk("es2017", nil))
+	run("x = /[^\\P{Lu}a-z]+(?:[\\p{Nd}])/u; y = /a[\\]\\p{L}]/u", mk("es2017", nil))
+	run("x = /\\p{L}/v", mk("es2017", map[string]bool{"regexp-set-notation": true}))
+	run("x = /[\\p{L}--[a-z]]/v", mk("es2017", map[string]bool{"regexp-set-notation": true}))
+	// fix 376c1b1: new.target in a static initializer that is moved out of the class
+	run("class C { static p = new.target }\nnew C", mk("es2021", nil))
+	run("x = class { static #q = [new.target, () => new.target]; static { y = new.target } }", mk("es2021", nil))
+	// fix 9c91e2a: super in an async generator when only async generators are unsupported
+	run("class C extends D { async *m() { yield super.x } }\nnew C", mk("es2017", nil))
+	run("x = { async *b() { yield super.x; super.y = 1; yield* super.z() } }", mk("es2017", nil))
+	// fix 0b95f51: \u{...} in the raw text of a tagged template with unicode-escapes unsupported
+	run("y = String.raw`\\u{1F600}${b}`", mk("esnext", map[string]bool{"unicode-escapes": false}))
+	run("z = tag`a\\u{62}c`; w = f()`\\u{1F600}${x}\\u{1F601}`", mk("esnext", map[string]bool{"unicode-escapes": false}))
 }
 
 // ---------- glue ----------
